@@ -171,6 +171,13 @@ impl World {
                 self.stats.inc("fault_handle_dropped_by_another_thread_during_a_callback");
                 res
             }
+            Cmd::Rehome { p } => {
+                if *p < self.cfg.n && !self.running(*p) && self.cfg.cluster_ids.len() == 2 {
+                    self.cluster_now[*p] = 1 - self.cluster_now[*p];
+                    self.stats.inc("fault_address_changes_cluster");
+                }
+                Ok(())
+            }
             Cmd::Watch { p, attach } => {
                 if let Some(node) = self.nodes.get_mut(*p).and_then(|n| n.as_mut()) {
                     if *attach {
@@ -610,7 +617,7 @@ impl World {
             let h = super::deliver::order_pattern(&[c.gc, c.mv, owner_mv]) * 8 + cls;
             self.abs_states.insert(h);
         }
-        self.check_isolation(p)
+        self.check_isolation(p, None)
     }
 
     fn tick(&mut self, p: usize, peers: &[usize]) -> Result<(), Violation> {
@@ -809,7 +816,7 @@ impl World {
         if !self.running(to) {
             return Ok(());
         }
-        let cluster = self.cfg.cluster_ids[self.cfg.cluster_of[to]].clone();
+        let cluster = self.cfg.cluster_ids[self.cluster_now[to]].clone();
         let syn = crate::codec::Msg::Syn { digest: vec![], cluster };
         let bytes = crate::codec::encode(&syn, crate::codec::BlockPlan::Auto { size: 16_384 });
         self.flight_seq += 1;
